@@ -409,6 +409,45 @@ impl Workload for Search {
                         return out;
                     }
                 }
+                // A query that was stopped with the public stop_query() (what the timer does when the limit
+                // is reached) and then reported None has been reported exhausted: it stays so after the
+                // stop flag has been cleared again by the next timer.
+                if idx % 3 == 0 {
+                    // (a search that goes on under the stop flag takes paths the reference never took, e.g. into
+                    // arithmetic on an unbound variable, which panics: such a case is outside the statements' domain)
+                    let stopped = guarded(|| -> Option<Outcome> {
+                    let sn3 = make_base_node(Rc::new(query_goal(&c)), &kb);
+                    let first = next_solution(Rc::clone(&sn3));
+                    let _ = take_output();
+                    if first.is_some() {
+                        stop_query();
+                        let mut drained = false;
+                        for _ in 0..MAX_ANSWERS + 2 { if next_solution(Rc::clone(&sn3)).is_none() { drained = true; break; } }
+                        let _ = take_output();
+                        // clear the flag the way the next solve() would, without building a query
+                        let t = start_query_timer(60_000); cancel_timer(t);
+                        if drained {
+                            for i in 0..3 {
+                                let r = next_solution(Rc::clone(&sn3));
+                                let o = take_output();
+                                out.evals += 1;
+                                if r.is_some() || !o.is_empty() {
+                                    out.violate(self.sig("reask-after-stop", &c), witness(&c, "a query stopped with stop_query() reported None, and answered again once the stop flag had been cleared",
+                                                &format!("request #{} after the flag was cleared: {} output {:?}", i + 1, if r.is_some() { "an answer" } else { "None" }, o)));
+                                    return Some(out.clone());
+                                }
+                            }
+                            out.count("reasks_after_stop_query", 1);
+                        }
+                    } else { let t = start_query_timer(60_000); cancel_timer(t); }
+                        None
+                    });
+                    match stopped {
+                        Ok(Some(o)) => return o,
+                        Ok(None) => {}
+                        Err(_) => { let t = start_query_timer(60_000); cancel_timer(t); let _ = take_output(); out.count("stopped_search_left_the_domain", 1); }
+                    }
+                }
                 // and the other way round: after solve_all() has listed everything, the query is exhausted
                 {
                     let sn2 = make_base_node(Rc::new(query_goal(&c)), &kb);
